@@ -660,7 +660,7 @@ func redactString(s string, nonEncryptedValue string) string {
 	if shouldEncrypt && encryptionKey != nil {
 		encrypted, err := Encrypt([]byte(s), encryptionKey)
 		if err != nil {
-			return s // Fallback to original if encryption fails
+			return nonEncryptedValue // fail closed: never emit the plaintext when encryption fails
 		}
 		return base64.StdEncoding.EncodeToString(encrypted)
 	}
